@@ -328,7 +328,7 @@ func (c *ctx) runMitm(k kase) {
 	}
 	bOK := s.err[1] == nil && s.sc[1] != nil
 	if firstBad <= 2 {
-		c.classes.Add(fmt.Sprintf("mitm/%s/handshake-frame/%v", k.Tamper, !bOK))
+		c.classes.Add(fmt.Sprintf("mitm/%s/handshake-unit/rejected=%v", k.Tamper, !bOK))
 		if bOK {
 			c.report(base("tampered-handshake-accepted"), k, fmt.Sprintf("%s at unit %d (first altered unit %d): B's handshake succeeded, RemotePubKey=%v", k.Tamper, k.Frame, firstBad, s.sc[1].RemotePubKey()))
 		}
@@ -383,7 +383,7 @@ func (c *ctx) runMitm(k kase) {
 	case rerr == nil:
 		verdict = "no-error-at-end"
 	}
-	c.classes.Add(fmt.Sprintf("mitm/%s/data-frame/%s/tampered=%v", k.Tamper, verdict, tampered))
+	c.classes.Add(fmt.Sprintf("mitm/%s/data-unit/%s/tampered=%v", k.Tamper, verdict, tampered))
 	if verdict != "ok" {
 		c.report(base(verdict), k, fmt.Sprintf("%s at unit %d (arg %d, first altered unit %d, A's key lo=%v): A wrote %d bytes, B obtained %d (allowed %d), prefix-of-genuine=%v, final error %v",
 			k.Tamper, k.Frame, k.Arg, firstBad, k.ALo, len(plainA), len(got), allowed, bytes.HasPrefix(plainA, got), rerr))
